@@ -66,6 +66,7 @@ type script struct {
 	CloseCode int
 	CloseKind int  // 0 short reason, 1 long reason, 2 invalid code with a long reason, 3 invalid UTF-8 in a long reason, 4 no reason
 	WSS       bool // the client first probes a wss:// dial through the default TLS client (the peer never answers)
+	Vanish    int  // > 0: the client sends only the first Vanish lines of its request and goes away (the upgrader must fail; nothing else happens)
 	LongHdr   bool // both peers send a header line longer than the default I/O buffer (and shorter than two of them)
 	Debug     bool // the client dials through the process-wide wsutil.DebugDialer value
 }
@@ -113,6 +114,9 @@ func makeScript(seed uint64) *script {
 		if sc.Flate && sc.Steps[i].Kind == exCompressed && p.intn(2) == 0 {
 			sc.Steps[i].Kind = exOwnHelper
 		}
+	}
+	if sc.SrvKind != 2 && p.intn(8) == 0 {
+		sc.Vanish = 1 + p.intn(4)
 	}
 	if p.intn(5) == 0 {
 		sc.Steps = append(sc.Steps, exchange{Kind: exBadText, FromCli: p.intn(2) == 0, Text: true, Size: 3 + p.intn(40), Seed: p.next()})
@@ -267,9 +271,31 @@ func sniOf(b []byte) string {
 func wssProbe(sc *script, tr *transcript) {
 	host := fmt.Sprintf("host-%d.example", sc.Seed%100000)
 	hc := &helloConn{}
-	d := ws.Dialer{NetDial: func(ctx context.Context, network, addr string) (net.Conn, error) { return hc, nil }}
-	_, _, _, err := d.Dial(context.Background(), "wss://"+host+"/")
-	tr.add("wss probe: dialed %s, ClientHello server_name=%q, failed=%v", host, sniOf(hc.out), err != nil)
+	var addrs []string
+	d := ws.Dialer{NetDial: func(ctx context.Context, network, addr string) (net.Conn, error) {
+		addrs = append(addrs, addr)
+		return hc, nil
+	}}
+	// The same host over ws:// and wss://, in an order that depends on the
+	// session: each goes to the default port of its scheme.
+	schemes := []string{"wss", "ws"}
+	if sc.Seed%2 == 1 {
+		schemes = []string{"ws", "wss"}
+	}
+	for _, scheme := range schemes {
+		hc.out = nil
+		_, _, _, err := d.Dial(context.Background(), scheme+"://"+host+"/")
+		if scheme == "wss" {
+			tr.add("wss probe: dialed %s, ClientHello server_name=%q, failed=%v", host, sniOf(hc.out), err != nil)
+		}
+	}
+	want := []string{host + ":443", host + ":80"}
+	if schemes[0] == "ws" {
+		want[0], want[1] = want[1], want[0]
+	}
+	if len(addrs) != 2 || addrs[0] != want[0] || addrs[1] != want[1] {
+		tr.add("probe: NetDial was asked for the wrong address: %q, expected %q", addrs, want)
+	}
 }
 
 // longValue is a header value longer than the default I/O buffer (4096) and
@@ -321,6 +347,16 @@ func runClient(sc *script, conn net.Conn, tr *transcript) {
 	s := &side{sc: sc, conn: conn, client: true, tr: tr, state: ws.StateClientSide}
 	if sc.WSS {
 		wssProbe(sc, tr)
+	}
+	if sc.Vanish > 0 {
+		// A client that goes away in the middle of its request.
+		lines := []string{"GET /session/gone HTTP/1.1\r\n", "Host: example.com\r\n", "Upgrade: websocket\r\n", "Connection: Upgrade\r\n", "Sec-WebSocket-Version: 13\r\n"}
+		for _, l := range lines[:sc.Vanish] {
+			conn.Write([]byte(l))
+		}
+		conn.Close()
+		tr.add("vanished after %d request lines", sc.Vanish)
+		return
 	}
 	d := ws.Dialer{Protocols: sc.Protocols}
 	if sc.Flate {
@@ -464,6 +500,10 @@ func runServer(sc *script, conn net.Conn, tr *transcript) {
 		} else {
 			_, _, hs, err = u.Upgrade(req, &hijackRW{conn: conn, br: br, h: http.Header{}})
 		}
+	}
+	if sc.Vanish > 0 {
+		tr.add("handshake with a client that vanished: failed=%v", err != nil)
+		return
 	}
 	tr.add("handshake: protocol=%q extensions=%q err=%v", hs.Protocol, optsString(hs.Extensions), err)
 	if err != nil {
